@@ -128,11 +128,26 @@ func verifBuildState(k int) *verifSess {
 	case 14:
 		walk(3, "f", ModeRegular, verifKFile)
 		walk(7, "f", ModeRegular, verifKFile)
+	case 15:
+		// a fid two levels down reached by ONE multi-component walk (its parent
+		// reference is an anonymous intermediate), plus a separate fid on the directory
+		walk(2, "d", ModeDirectory, verifKDir)
+		fs.walkMode = ModeDirectory
+		x.must(&twalk{fid: 1, newFID: 6, Names: []string{"d", "f"}})
+		x.bind(&verifFidM{fid: 6, kind: verifKDir, node: x.lastNode()})
+	case 16:
+		// the directory reached twice (walk and clone), the child walked from the clone
+		walk(2, "d", ModeDirectory, verifKDir)
+		x.must(&twalk{fid: 2, newFID: 4})
+		x.bind(&verifFidM{fid: 4, kind: verifKDir, node: x.lastNode()})
+		fs.walkMode = ModeRegular
+		x.must(&twalk{fid: 4, newFID: 6, Names: []string{"f"}})
+		x.bind(&verifFidM{fid: 6, kind: verifKFile, node: x.lastNode()})
 	}
 	return x
 }
 
-const verifNStates = 15
+const verifNStates = 17
 
 // errno constants (Linux)
 const (
